@@ -184,7 +184,7 @@ func cmdSelftest(args []string) int {
 				return
 			}
 			if m.Base != "" {
-				cmd := exec.Command("patch", "-p1", "-s", "-i", filepath.Join(vd, m.Base))
+				cmd := exec.Command("patch", "-p1", "-s", "--no-backup-if-mismatch", "-i", filepath.Join(vd, m.Base))
 				cmd.Dir = dir
 				if out, err := cmd.CombinedOutput(); err != nil {
 					res.info = fmt.Sprintf("base patch: %v %s", err, out)
@@ -202,7 +202,7 @@ func cmdSelftest(args []string) int {
 				}
 			}
 			if m.Patch != "" {
-				cmd := exec.Command("patch", "-p1", "-s", "-i", filepath.Join(vd, m.Patch))
+				cmd := exec.Command("patch", "-p1", "-s", "--no-backup-if-mismatch", "-i", filepath.Join(vd, m.Patch))
 				cmd.Dir = dir
 				if out, err := cmd.CombinedOutput(); err != nil {
 					res.info = fmt.Sprintf("patch: %v %s", err, out)
